@@ -345,16 +345,29 @@ class C02(Property):
     def classify(self, case, failure):
         schema, sep, pairs = case["schema"], case["sep"], case["pairs"]
         if failure.get("clause") == "order-free":
-            # KF-C02-a: two distinct keys reach the same leaf through different spellings
-            seen = {}
+            # KF-C02-a predicts: the order dependence comes from two distinct keys that spell the same leaf
+            # address (first pair wins) — with only one spelling kept per address it is gone, both for the
+            # failing permutation and for fresh ones
+            seen, drop = {}, set()
             for k, _ in pairs:
                 a = leaf_address(schema, sep, k)
                 if a is not None:
                     if a in seen and seen[a] != k:
-                        return "KF-C02-a"
-                    seen[a] = k
-            # aliases of a slot in a pruning/non-pruning list can reorder nothing else
-            return None
+                        drop.add(k)
+                    else:
+                        seen.setdefault(a, k)
+            if not drop:
+                return None
+            kept = [p for p in pairs if p[0] not in drop]
+            perm = [p for p in (failure.get("permutation") or []) if p[0] not in drop]
+            try:
+                if perm and state(schema, case["kinds"], sep, perm) != state(schema, case["kinds"], sep, kept):
+                    return None
+                if any(f.get("clause") == "order-free" for f in self.oracle(dict(case, pairs=kept))):
+                    return None
+            except Exception:
+                return None
+            return "KF-C02-a"
         if failure.get("clause") == "confined":
             # KF-C02-b: the only effect is a blank member materialised in a sparse dict
             w, wo = failure.get("with"), failure.get("without")
